@@ -674,10 +674,18 @@ def deep_clone(value: Any) -> Any:
 
     # For lists, check if they contain PropertyTreeNode objects
     if isinstance(value, list):
-        if value and hasattr(value[0], "propertySet"):
-            # This is a list of PropertyTreeNode objects (like tasks in depends)
-            # Do a shallow copy to preserve object identity
-            return list(value)
+
+        def refers_to_node(item: Any) -> bool:
+            if hasattr(item, "propertySet"):
+                return True
+            return isinstance(item, dict) and any(hasattr(v, "propertySet") for v in item.values())
+
+        if any(refers_to_node(item) for item in value):
+            # This is a list of PropertyTreeNode objects (like tasks in depends) or of
+            # dicts that refer to one (a dependency with options such as gapduration).
+            # Copy the list and the dicts but preserve the identity of the nodes:
+            # a deep copy would clone the referenced task together with its project.
+            return [dict(item) if isinstance(item, dict) else item for item in value]
         else:
             # Regular list, deep copy
             return copy.deepcopy(value)
